@@ -363,8 +363,9 @@ def main(argv):
     }
     if inconclusive:
         evidence["inconclusive_reasons"] = inconclusive[:10]
-    os.makedirs(os.path.join(VERIF, "evidence"), exist_ok=True)
-    evpath = os.path.join(VERIF, "evidence", f"{prop}.json")
+    outdir = os.environ.get("VERIF_OUT", VERIF)  # selftests redirect evidence/replays away from /verif
+    os.makedirs(os.path.join(outdir, "evidence"), exist_ok=True)
+    evpath = os.path.join(outdir, "evidence", f"{prop}.json")
     try:
         import jsonschema
 
@@ -388,9 +389,9 @@ def main(argv):
     for m, f in known_hit.items():
         print(f"KNOWN-FINDING: property={prop} {m}: {f.get('description', '')} (observed {vcount.get(m, 0)}x)")
     if fresh:
-        os.makedirs(os.path.join(VERIF, "replays"), exist_ok=True)
+        os.makedirs(os.path.join(outdir, "replays"), exist_ok=True)
         digest = hashlib.sha1(json.dumps(fresh, sort_keys=True).encode()).hexdigest()[:10]
-        rpath = os.path.join(VERIF, "replays", f"{prop}-{digest}.json")
+        rpath = os.path.join(outdir, "replays", f"{prop}-{digest}.json")
         with open(rpath, "w") as fh:
             json.dump({"property": prop, "tier": tier, "seed": seed, "violations": fresh,
                        "counts": {m: vcount[m] for m in fresh_mechs}}, fh, indent=1)
